@@ -42,7 +42,7 @@ TF = 'chainables.tree_fns'
 
 
 def run(ctx: Ctx):
-  for r in (r9, r1, r2, r3, r4, r5, r6, r7, r8, r10, r11):
+  for r in (r9, r1, r2, r3, r4, r5, r6, r7, r8, r10, r11, r12):
     ctx.guard(r)
 
 
@@ -663,10 +663,36 @@ def r11(ctx: Ctx):
   ctx.floor(rule, 2, n)
 
 
+def r12(ctx: Ctx):
+  rule = 'R-C19-12'
+  ctx.rule(rule, '"every emitted batch except possibly the last has exactly the target size": the target size `rebatched_args`'
+           ' works with is the one it was CALLED with — the function never re-binds its `batch_size` parameter (a silent cap'
+           ' such as `batch_size = min(batch_size, <queue constant>)` makes every batch of a larger target the cap\'s size,'
+           ' and pads the last one to the cap)')
+  fi = ctx.repo.func(IU, 'rebatched_args')
+  ps = [p_ for p_ in fi.params() if 'batch_size' in p_ or p_ in ('pad', 'num_columns')]
+  n = 0
+  for p_ in ps:
+    if 'batch_size' not in p_:
+      continue
+    n += 1
+    rebinds = [x for x in walk_no_nested(fi.node) if isinstance(x, (ast.Assign, ast.AugAssign, ast.AnnAssign)) and any(
+        isinstance(t, ast.Name) and t.id == p_ for t in (x.targets if isinstance(x, ast.Assign) else [x.target]))]
+    what = f'rebatched_args: `{p_}` keeps the value it was called with'
+    if rebinds:
+      ctx.fail(rule, fi, what, f'`{unparse(rebinds[0])[:60]}` changes the target size inside the re-batcher: the emitted batches no longer have'
+               ' the size the caller asked for', node=rebinds[0])
+    else:
+      ctx.ok(rule, fi, what, fi.node)
+  ctx.floor(rule, 1, n)
+
+
 from mlmverif.selfcheck import B, OK  # noqa: E402
 
 _F = 'utils/iter_utils.py'
 VARIANTS = [
+    B('target-size-capped-at-a-queue-constant', 'utils/iter_utils.py',
+      "  if not batch_size:\n    yield from tuples\n    return\n", "  if not batch_size:\n    yield from tuples\n    return\n  batch_size = min(batch_size, _MAX_BATCH_SIZE)\n", 'R-C19-12'),
     OK('num-outputs-through-a-local', 'chainables/tree_fns.py',
        "    if isinstance(self.output_keys, tuple):\n      return len(self.output_keys)\n", "    keys = self.output_keys\n    if isinstance(keys, tuple):\n      return len(keys)\n"),
     B('num-outputs-without-skipped-keys', 'chainables/tree_fns.py',
